@@ -759,6 +759,11 @@ func TestWorker(t *testing.T) {
 		}
 	}
 	if *fMode == "replay" {
+		sim.HangAfter = 8 * time.Second
+	}
+	sim.StartWatchdog(out, finish)
+	sim.SetSite(site)
+	if *fMode == "replay" {
 		c, err := sim.LoadCase(*fCase)
 		if err != nil {
 			fmt.Fprintln(os.Stderr, "replay:", err)
@@ -767,6 +772,7 @@ func TestWorker(t *testing.T) {
 		// a case without a recorded schedule (e.g. the crash file of a killed worker) is
 		// re-run from its scheduler seed: the same choices as in the original run
 		script := c.Schedule
+		sim.SetCurrent(c)
 		v, info := runCase(t, c, script, *fStrict && script != nil)
 		c.Schedule = info.schedule
 		c.End = info.end
@@ -797,6 +803,7 @@ func TestWorker(t *testing.T) {
 		if *fCrashFile != "" {
 			sim.WriteJSON(*fCrashFile, c)
 		}
+		sim.SetCurrent(c)
 		v, info := runCase(t, c, nil, false)
 		c.Schedule = info.schedule
 		c.End = info.end
